@@ -200,6 +200,11 @@ type c07Gate struct {
 	// SnapType: the snapshot type bits of the markers (1 memory, 2 disk = a backfill, 4 checkpoint, 16 history ...): what the
 	// active node read from its disk has not necessarily been persisted by every replica - the gate applies all the same
 	SnapType uint32 `json:"snap_type,omitempty"`
+	// ReopenAt k > 0: after k reports the stream is requested again inside the session (after a transient end / a rollback) with
+	// the same observer, and the answer names the vbUUID ReopenUUID (1 = the one it had, else a new branch): the threshold
+	// applied to the stream does not go down for that, and what it covers is delivered
+	ReopenAt   int    `json:"reopen_at,omitempty"`
+	ReopenUUID uint64 `json:"reopen_uuid,omitempty"`
 }
 
 // seqno of any event the observer hands to the stream (document, system, seqno-advanced)
@@ -288,7 +293,25 @@ func c07ExecGate(sc c07Gate) (string, map[string]bool) {
 	}()
 	var prevPersist gocbcore.SeqNo
 	closed := false
+	reopened := false
+	reopen := func() string {
+		reopened = true
+		obs.SetVbUUID(gocbcore.VbUUID(sc.ReopenUUID))
+		labels["stream_requested_again_inside_the_session"] = true
+		if sc.ReopenUUID != 1 {
+			labels["reopened_on_another_vbuuid"] = true
+		}
+		if p := obs.GetPersistSeqNo(); p < prevPersist {
+			return fmt.Sprintf("threshold went down: %d -> %d when the stream was requested again inside the session (vbUUID %d -> %d)", prevPersist, p, 1, sc.ReopenUUID)
+		}
+		return ""
+	}
 	for i, r := range sc.Reports {
+		if sc.ReopenAt > 0 && i == sc.ReopenAt {
+			if d := reopen(); d != "" {
+				return d, labels
+			}
+		}
 		if i == sc.CloseAt {
 			closedFlag.Store(true)
 			obs.Close()
@@ -316,6 +339,11 @@ func c07ExecGate(sc c07Gate) (string, map[string]bool) {
 			return fmt.Sprintf("threshold is %d after reports with maximum %d", p, maxIssued.Load()), labels
 		}
 		prevPersist = p
+	}
+	if sc.ReopenAt > 0 && !reopened && !closed {
+		if d := reopen(); d != "" {
+			return d, labels
+		}
 	}
 	final := maxIssued.Load()
 	// every event covered by the final threshold must come through (no lost wake-up): bound = 400 x the 1 ms poll
@@ -401,6 +429,10 @@ func TestC07_Gate(t *testing.T) {
 			sc.Catchup = rapid.Uint64Range(1, seq).Draw(rt, "catchupat")
 		}
 		sc.SnapType = rapid.SampledFrom([]uint32{0, 1, 1, 2, 2, 6, 5, 18}).Draw(rt, "snaptype")
+		if rapid.IntRange(0, 2).Draw(rt, "reopen") == 0 {
+			sc.ReopenAt = rapid.IntRange(1, len(sc.Reports)+1).Draw(rt, "reopenat")
+			sc.ReopenUUID = rapid.SampledFrom([]uint64{1, 2, 2, 0xABCDEF}).Draw(rt, "reopenuuid")
+		}
 		if rapid.Bool().Draw(rt, "mixedkinds") {
 			sc.Kinds = rapid.SliceOfN(rapid.SampledFrom([]string{"mut", "mut", "del", "exp", "adv", "adv", "cc", "cd", "cf", "sc", "sd", "cm"}), 1, 8).Draw(rt, "kinds")
 		}
